@@ -16,7 +16,6 @@ structure St where
   v : Variant
   w : World
   cur : Bool        -- which of the two clients the ops address (`use a|b`)
-  rc : Bool         -- the tree under test compares header revisions (variant suffix `+rev`)
 
 def hexNat (s : String) : Option Nat :=
   if s = "-" then some 0 else
@@ -37,14 +36,18 @@ def dummy : Header :=
   { parentHash := 0, uncleEmpty := true, root := 0, difficulty := 0, number := 0, rev := 0, gasLimit := 0, gasUsed := 0,
     time := 0, extraLen := 0, baseFee := 0, rest := 0 }
 
-def fresh : St := { v := .orig, w := { a := some (initState { hash := fun h => h.rest, powOk := fun _ => true } 4 0 dummy), b := none }, cur := false, rc := false }
+def fresh : St := { v := .orig, w := { a := some (initState { hash := fun h => h.rest, powOk := fun _ => true } 4 0 dummy), b := none }, cur := false }
+
+/-- difficulty / base fee: decimal, or `x<hex>` = the big-endian bytes as they travel in the proto message -/
+def bigField (s : String) : Option Nat :=
+  if s.startsWith "x" then (unhex (let t := (s.drop 1).toString; if t = "" then "-" else t)).map beNat else s.toNat?
 
 /-- parsed header and its PoW bit -/
 def parseHeader : List String → Option (Header × Bool)
   | [ph, uh, _cb, root, _tx, _rc, _bloom, diff, num, gl, gu, time, extra, _mix, _nonce, bf, hash, pow] => do
     let ph ← hexNat ph
     let root ← hexNat root
-    let diff ← diff.toNat?
+    let diff ← bigField diff
     let (rev, num) ← (match num.splitOn "-" with
       | [n] => n.toNat?.map (fun n => (0, n))
       | [r, n] => do let r ← r.toNat?; let n ← n.toNat?; pure (r, n)
@@ -53,7 +56,7 @@ def parseHeader : List String → Option (Header × Bool)
     let gu ← gu.toNat?
     let time ← time.toNat?
     let ex ← unhex extra
-    let bf ← bf.toNat?
+    let bf ← bigField bf
     let hash ← hexNat hash
     pure ({ parentHash := ph, uncleEmpty := uh == emptyUncle, root := root, difficulty := diff, number := num, rev := rev,
             gasLimit := gl, gasUsed := gu, time := time, extraLen := ex.length, baseFee := bf, rest := hash }, pow == "1")
@@ -83,17 +86,18 @@ def step (st : St) (line : String) : St × String :=
     -- fresh history: no client but the first, which is created from the header
     match chain.toNat?, trusting.toNat?, parseHeader rest with
     | some chain, some tr, some (h, _) =>
-      let rc := (v.splitOn "+rev").length > 1
       let v := if v.startsWith "fixed" then Variant.fixed else Variant.orig
-      let s := initStateR (envOf true) chain tr rc h
-      ({ v := v, w := { a := some s, b := none }, cur := false, rc := rc }, "ok " ++ dump s)
+      match createClient (envOf true) chain tr h with
+      | .ok s => ({ v := v, w := { a := some s, b := none }, cur := false }, "ok " ++ dump s)
+      | _ => ({ v := v, w := { a := none, b := none }, cur := false }, "err")
     | _, _, _ => (st, "bad-op")
   | "create" :: chain :: trusting :: rest =>
     -- CreateClient for the client currently addressed
     match chain.toNat?, trusting.toNat?, parseHeader rest with
     | some chain, some tr, some (h, _) =>
-      let s := initStateR (envOf true) chain tr st.rc h
-      ({ st with w := st.w.set st.cur s }, "ok " ++ dump s)
+      match createClient (envOf true) chain tr h with
+      | .ok s => ({ st with w := st.w.set st.cur s }, "ok " ++ dump s)
+      | _ => (st, "err")
     | _, _, _ => (st, "bad-op")
   | ["use", x] =>
     let i := x == "b"
